@@ -107,6 +107,11 @@ def sensitivity(argv, seed):
     """Apply each seeded fault to a scratch copy of /repo/dsw (outside /repo and /verif), run the quick check of its
     property against the copy, expect exit 1 with a VIOLATION line. The copy is removed afterwards."""
     only = _props(argv, [])
+    equivalent = {}
+    eq_path = os.path.join(runner.VERIF, "mutants", "EQUIVALENT.json")
+    if os.path.exists(eq_path):
+        with open(eq_path) as f:
+            equivalent = json.load(f)
     runs = argv[argv.index("--runs") + 1] if "--runs" in argv else None
     results, missed = [], 0
     for name, prop, patch, check_args in collect_mutants():
@@ -133,11 +138,14 @@ def sensitivity(argv, seed):
             line = [ln for ln in text.splitlines() if ln.startswith("violation ")]
             print("sensitivity %-44s %s: %s (%.0fs) %s" % (name, prop, "caught" if caught else "MISSED rc=%d" % q.returncode,
                                                          time.time() - t0, line[0][:150] if line else ""))
-            if not caught:
+            if not caught and name in equivalent and q.returncode == 0:
+                print("            (listed as not a violation of the property as worded: %s)" % equivalent[name][:120])
+            elif not caught:
                 missed += 1
                 sys.stdout.write(q.stderr.decode()[-600:])
             results.append({"mutant": name, "property": prop, "caught": caught, "first": line[0] if line else None,
-                            "tier": (check_args or ["quick"])[0]})
+                            "tier": (check_args or ["quick"])[0],
+                            "equivalent": equivalent.get(name) if not caught else None})
             # replay files produced against the scratch copy are not evidence about /repo
             for ln in text.splitlines():
                 if ln.startswith("VIOLATION") and "replay=" in ln:
@@ -155,7 +163,8 @@ def sensitivity(argv, seed):
         merged[r["mutant"]] = r
     ordered = [merged[k] for k in sorted(merged)]
     with open(path, "w") as f:
-        json.dump({"results": ordered, "missed": sum(1 for r in ordered if not r["caught"])}, f, indent=1,
+        json.dump({"results": ordered,
+                   "missed": sum(1 for r in ordered if not r["caught"] and not r.get("equivalent"))}, f, indent=1,
                   sort_keys=True)
     print("sensitivity: %d mutant(s), %d missed" % (len(results), missed))
     return 1 if missed else 0
